@@ -72,7 +72,28 @@ class Folder:
             raise Unfoldable(f"{cls_q} has no member {member}")
         v = c.consts[member]
         if isinstance(v, ast.Call) and norm(v.func).endswith("auto"):
-            val = [k for k in c.consts if k.isupper() or True].index(member) + 1
+            # enum.auto(): one more than the value of the member before it (1 for the first), unless the class says otherwise
+            if "_generate_next_value_" in c.methods or any("_generate_next_value_" in self.m.classes[b].methods for b in c.mro if b in self.m.classes):
+                raise Unfoldable(f"{cls_q}.{member}: auto() under a custom _generate_next_value_")
+            last = 0
+            val = None
+            for k, kv in c.consts.items():
+                if k.startswith("_"):
+                    continue
+                if isinstance(kv, ast.Call) and norm(kv.func).endswith("auto"):
+                    cur = last + 1
+                else:
+                    cur = self.fold(kv, c.module)
+                    if isinstance(cur, tuple) and cur:
+                        cur = cur[0]
+                if not isinstance(cur, int):
+                    raise Unfoldable(f"{cls_q}.{member}: auto() after a member that is not an int")
+                last = cur
+                if k == member:
+                    val = cur
+                    break
+            if val is None:
+                raise Unfoldable(f"{cls_q} has no member {member}")
         else:
             val = self.fold(v, c.module)
         return EnumConst(cls_q, member, val)
